@@ -26,3 +26,7 @@ pub use query::Query;
 
 mod raw_request;
 pub use raw_request::RawRequest;
+
+#[cfg(dropshot_verif)]
+#[doc(hidden)]
+pub use body::verif_hooks as body_verif_hooks;
